@@ -76,3 +76,4 @@ def register(R):
                     out.append(('m', v, k))
         return out
     setm(f'{DL}:DownloadNonSeekableOutputManager.get_io_write_tasks', dq_mod)
+    setm(f'{DL}:DownloadNonSeekableOutputManager.queue_file_io_task', dq_mod)
